@@ -1,5 +1,72 @@
-(* C06 — non-vacuity examples *)
-From Coq Require Import ZArith List.
-From FV Require Import Lib.RustInt C06.Model C06.Proofs.
+(* C06 — non-vacuity examples for the hypotheses of Props.v *)
+From Coq Require Import ZArith Lia List Sorted Permutation.
+From FV Require Import Lib.RustInt C06.Model C06.Checksum C06.MapLemmas C06.Proofs C06.Reader C06.FileSum C06.Final.
 Import ListNotations.
 Open Scope Z_scope.
+
+(* a three-table font: a 13-byte head (adjustment written), 'CFF ' (3 bytes), DSIG (1 byte) *)
+Definition ex_ops : list (Z * list Z) :=
+  [(TAG_DSIG, [9]); (TAG_head, [0;1;2;3;4;5;6;7;8;9;10;11;12]); (TAG_CFF, [1;2;3])].
+Definition ex_m : builder := Eval vm_compute in add_all ex_ops [].
+
+Example c06_pre_nonvacuous : pre ex_m.
+Proof.
+  unfold pre. split; [|split; [|split]].
+  - unfold wf. vm_compute. repeat constructor.
+  - unfold ex_m, keys. cbn [map fst]. unfold u32, TAG_CFF, TAG_DSIG, TAG_head. repeat constructor; lia.
+  - vm_compute. discriminate.
+  - vm_compute. reflexivity.
+Qed.
+
+Example c06_head_hypotheses_nonvacuous :
+  lookup TAG_head ex_m = Some [0;1;2;3;4;5;6;7;8;9;10;11;12] /\ 12 <= len [0;1;2;3;4;5;6;7;8;9;10;11;12]
+  /\ is_long_head TAG_head [0;1;2;3;4;5;6;7;8;9;10;11;12] = true.
+Proof. split; [reflexivity|]. split; [vm_compute; discriminate | reflexivity]. Qed.
+
+(* the concrete file: opens, whole-file checksum 0xB1B0AFBA, tables come back, CFF order puts head first, DSIG last *)
+Example c06_concrete_build :
+  match build ex_m with
+  | Some file =>
+      compute_checksum file = 2981146554 /\ len file = 12 + 3 * 16 + 16 + 4 + 4 /\
+      match font_ref_new file with
+      | Some f => map r_tag (fr_records f) = [TAG_CFF; TAG_DSIG; TAG_head] /\
+                  table_data f TAG_CFF = Some [1;2;3] /\ table_data f TAG_DSIG = Some [9] /\
+                  table_data f 0 = None /\
+                  map r_offset (fr_records f) = [76; 80; 60]
+      | None => False
+      end
+  | None => False
+  end.
+Proof. vm_compute. repeat split; reflexivity. Qed.
+
+(* two different insertion sequences (one with an overwritten first attempt) denoting the same map *)
+Example c06_order_hypothesis_nonvacuous :
+  let ops2 := [(TAG_CFF, [7;7]); (TAG_head, [0;1;2;3;4;5;6;7;8;9;10;11;12]); (TAG_CFF, [1;2;3]); (TAG_DSIG, [9])] in
+  ops2 <> ex_ops /\ (forall t, lookup t (add_all ex_ops []) = lookup t (add_all ops2 [])).
+Proof. split; [discriminate|]. intros t. reflexivity. Qed.
+
+Definition TAG_name : Z := Eval vm_compute in from_be [110; 97; 109; 101].   (* 'name' *)
+(* copy_missing_tables from a built font with an overlapping tag: the supplied CFF stays, 'name' is copied *)
+Definition ex_src_bytes : list Z := Eval vm_compute in
+  match build (add_all [(TAG_CFF, [5;5;5;5;5]); (TAG_name, [4;4])] []) with Some b => b | None => [] end.
+Definition ex_copied : builder := Eval vm_compute in
+  match font_ref_new ex_src_bytes with Some src => copy_missing_tables ex_m src | None => [] end.
+Example c06_copy_hypotheses_nonvacuous : exists src,
+  font_ref_new ex_src_bytes = Some src /\
+  lookup TAG_CFF ex_m = Some [1;2;3] /\ table_data src TAG_CFF = Some [5;5;5;5;5] /\
+  lookup TAG_CFF (copy_missing_tables ex_m src) = Some [1;2;3] /\
+  lookup TAG_name (copy_missing_tables ex_m src) = Some [4;4] /\
+  copy_missing_tables ex_m src = ex_copied.
+Proof. eexists. split; [vm_compute; reflexivity|]. vm_compute. repeat split. Qed.
+Example c06_copy_pre_nonvacuous : pre ex_copied.
+Proof.
+  unfold pre. split; [|split; [|split]].
+  - unfold wf. vm_compute. repeat constructor.
+  - unfold ex_copied, keys. cbn [map fst]. unfold u32. repeat constructor; lia.
+  - vm_compute. discriminate.
+  - vm_compute. reflexivity.
+Qed.
+
+(* 4096 tables: outside [pre]; the model build panics like the real one *)
+Example c06_sharp_nonvacuous : 4096 <= len (map (fun i => (Z.of_nat i, @nil Z)) (seq 0 4096)).
+Proof. vm_compute. discriminate. Qed.
